@@ -8,7 +8,8 @@ import sys
 
 pid = sys.argv[1]
 ROUND2 = len(sys.argv) > 2 and sys.argv[2] == "round2"
-suffix = "_r2" if ROUND2 else ""
+ROUND3 = len(sys.argv) > 2 and sys.argv[2] == "round3"
+suffix = "_r2" if ROUND2 else ("_r3" if ROUND3 else "")
 root = os.path.dirname(os.path.dirname(os.path.abspath(__file__)))
 prop = next(json.loads(l) for l in open(os.path.join(root, "properties.jsonl")) if json.loads(l)["id"] == pid)
 wt = f"/tmp/mut_{pid}{suffix}"
@@ -16,7 +17,8 @@ if not os.path.exists(wt):
     subprocess.run(["git", "-C", "/repo", "worktree", "add", "-q", "--detach", wt, "HEAD"], check=True)
 files = ", ".join(prop["anchors"]["files"])
 extra = ("""
-This is a SECOND round: a first round already tried the obvious single-call defects. Prefer defects that only show (a) when ONE object (manager, wrapper, component, simulation, trainer) is used for a multi-step history — several episodes, options changed through public setters between uses, a second call after a first one, (b) through aliasing or shared mutable state between two objects built in the same process, (c) for inputs that are equal as values but differ in representation or ordering (dict insertion order, id order, numpy memory layout/dtype, tuple vs list, int vs numpy int), or (d) only for a particular combination of three or more options/agents. A check that builds a fresh object per case and feeds canonical inputs must NOT be able to see your change.""" if ROUND2 else "")
+This is a SECOND round: a first round already tried the obvious single-call defects. Prefer defects that only show (a) when ONE object (manager, wrapper, component, simulation, trainer) is used for a multi-step history — several episodes, options changed through public setters between uses, a second call after a first one, (b) through aliasing or shared mutable state between two objects built in the same process, (c) for inputs that are equal as values but differ in representation or ordering (dict insertion order, id order, numpy memory layout/dtype, tuple vs list, int vs numpy int), or (d) only for a particular combination of three or more options/agents. A check that builds a fresh object per case and feeds canonical inputs must NOT be able to see your change.""" if ROUND2 else ("""
+This is a THIRD round: earlier rounds tried single-call defects and defects that need object histories, aliasing or unusual representations. Assume the checker generates many SMALL cases (grids up to about 6x6, up to about 7 agents, ranges up to about 6, histories up to about 40 operations, small integers) exhaustively and at random, also with object reuse. Prefer defects that only show at SCALE or at EXTREMES that such generators do not reach: ten or more rows/columns, eleven or more agents (ids like agent10 sort before agent2), view/move/attack ranges of 8 and more or larger than the grid, more than 9 encodings, two-digit counts, histories of 50+ steps or 3+ episodes, values at the ends of integer or float ranges, accumulation effects (rounding of many small rewards, counters), performance shortcuts that change results only above a threshold. The defect must still be realistic and must still leave the test suite unchanged.""" if ROUND3 else ""))
 print(f"""You are helping to evaluate a verification effort by playing the adversary. You get ONE semantic property of the Python package LLNL/Abmarl and your own scratch git worktree of its repository at {wt} (a detached checkout; work ONLY there; do NOT read or use anything under /verif or /repo — what you write must be independent of any existing checker).
 
 The property:
